@@ -13,11 +13,13 @@ LONG = ','.join(['memset.0:200', 'memcmp.0:18', '_ZL10copy_bytesPhPKhj.0:18', '_
                  '_ZL11check_imagePKhmPK5Entryj.0:58', '_ZL11check_imagePKhmPK5Entryj.1:58', '_ZL11fresh_bytesPh.0:18', '_ZL5paintPh.0:58'])
 MLONG = ','.join(['verif_memset_n.0:60', 'verif_memcpy_n.0:20', 'memcmp.0:18', '_ZL10copy_bytesPhPKhj.0:18', '_ZL10keep_bytesR5EntryPKhm.0:34', '_ZL10part_equalRK5EntryS1_.0:34', '_ZL10same_bytesPKhS0_m.0:34',
                   '_ZL11check_imagePKhmPK5Entryj.0:58', '_ZL11check_imagePKhmPK5Entryj.1:58', '_ZL11fresh_bytesPh.0:18', '_ZL5paintPh.0:58',
-                  # fill(): the loop over the 7 trees, and the walk of one tree (at most 4 nodes here)
-                  '_ZL7do_fillRKN6asmjit5v1_219ConstPoolEPh.4:8'] + ['_ZN6asmjit5v1_219ConstPool3addEPKvmNS0_3OutImEE.%d:8' % i for i in (1, 2, 3)] +  # add(): walk over the gap size classes
-                  ['_ZL7do_fillRKN6asmjit5v1_219ConstPoolEPh.%d:6' % i for i in range(4)])
+                  # fill(): the loop over the 7 trees and the walk of one tree (at most 4 nodes here); all back edges get the same bound because a
+                  # change to for_each renumbers them
+                  ] + ['_ZN6asmjit5v1_219ConstPool3addEPKvmNS0_3OutImEE.%d:8' % i for i in (1, 2, 3)] +  # add(): walk over the gap size classes
+                  ['_ZL7do_fillRKN6asmjit5v1_219ConstPoolEPh.%d:8' % i for i in range(10)])
 # Tree::for_each keeps its walk stack in `Node* stack[62]` indexed by a symbolic depth: with CBMC's default per-element treatment of
 # arrays up to 64 entries every push rewrites 62 symbols and symex runs out of memory on a 3-node tree; treated as one array it takes 1 s
+Q, T = ('quick', 'thorough'), ('thorough',)
 FS = ['--max-field-sensitivity-array-size', '16']
 BM = 'model tree (typed links, no balancing); add sizes %s from the empty pool, 16 symbolic data bytes per add (a later add may repeat an earlier constant, share its first 4 bytes, or be its bytes 4..7 / 8..15), %s into a guarded 56-byte image'
 B = 'add sizes %s from the empty pool, 16 symbolic data bytes per add (a later add may repeat the first constant, its upper half or its bytes 4..7), then (sequences 1,4,2 / 1,8,1 / 2,65 / 0,3 only) fill() into a guarded 56-byte image'
@@ -29,9 +31,9 @@ HARNESSES = [
     Harness('pool', 'h_pool_8_lookup', unwind=5, unwindset=LONG + ''.join(',h_pool_8_lookup.%d:%d' % (i, 22 if i < 2 else 9) for i in range(24)), mem_gb=7, timeout=1200,
             bounds='one add of 8 symbolic bytes, then the pool\'s own lookup (Tree::get) for both 4-byte halves and for 4 arbitrary bytes'),
 ] + [
-    Harness('poolm', 'h_poolm_' + nm, unwind=5, unwindset=MLONG + ''.join(',h_poolm_%s.%d:9' % (nm, i) for i in range(12)), mem_gb=6, timeout=900, flags=FS, bounds=BM % (nm.replace('_', ','), fill))
-    for nm, fill in (('8_8_4', 'no fill()'), ('1_4_1_1_1', 'then fill()'), ('4_4_4_4', 'then fill()'), ('16_8_4', 'then fill()'), ('4_8_4', 'then fill()'), ('1_8_1', 'then fill()'))
-] + [Harness('poolm', 'h_poolm_' + nm, unwind=5, unwindset=MLONG + ''.join(',h_poolm_%s.%d:9' % (nm, i) for i in range(12)), mem_gb=6, timeout=600, flags=FS) for nm in ('x44', 'x444', 'x444f')]
+    Harness('poolm', 'h_poolm_' + nm, unwind=5, unwindset=MLONG + ''.join(',h_poolm_%s.%d:9' % (nm, i) for i in range(12)), mem_gb=mem, timeout=1800, flags=FS, tiers=tiers, bounds=BM % (nm.replace('_', ','), fill))
+    for nm, fill, mem, tiers in (('8_8_4', 'no fill()', 2, Q), ('1_4_1_1_1', 'then fill()', 8, Q), ('4_4_4_4', 'then fill()', 8, Q), ('4_8_4', 'then fill()', 6, T), ('1_8_1', 'then fill()', 4, Q))
+]
 EXPLANATION = 'bounded symbolic execution (CBMC) of the real ConstPool::add / fill compiled from /repo; offsets and the written image are compared with a list of the constants kept by the harness'
 OUTSIDE = ['measured and dropped (out of memory at the 8 GB cap of one query after 30..280 s): size sequences 8,4 / 4,8 / 8,8 / 1,8,1 / 4,4,4 / 4,8,4 / 16,8,4, i.e. every scenario in which a tree of the pool receives a third node or a node is added next to two shared ones; sharing is therefore checked by lookup after one 8-byte add (h_pool_8_lookup), not through a second add', 'fill() of pools whose trees hold more than one node of a size class (tree walks through the tagged links exhaust the memory cap)', 'size sequences other than the ones listed per harness (sizes are constants per harness: with symbolic sizes the solver reaches no verdict)', 'constants of 32 and 64 bytes (a 64-byte constant registers 30 shared sub-constants: beyond the memory cap of one query)', 'more than 3 adds', 'pools that are not empty at the start']
 ASSUMPTIONS = ['Arena::_alloc_oneshot is a harness stub handing out one 56-byte object per request (the arena is checked by C18); allocation never fails (D3 / C15)',
